@@ -208,6 +208,10 @@ func init() {
 		th.m.permuteMaps = int(th.m.asInt(args[0]))
 		return nil
 	}
+	I[rtPkg+"RotateMaps"] = func(th *Thread, fn *ssa.Function, args []Value) Value {
+		th.m.rotateMaps = th.m.asInt(args[0]) != 0
+		return nil
+	}
 	I[rtPkg+"LiveThreads"] = func(th *Thread, fn *ssa.Function, args []Value) Value {
 		n := 0
 		for _, t := range th.m.threads {
